@@ -282,3 +282,70 @@ def check_C20(tier):
         if not okk:
             raise ToolError("binding self-test failed")
     return res.finish()
+
+
+def csvrun_descriptor(rec, clause):
+    return {"family": "csvrun", "clause": clause, "prog": rec.get("prog"), "fault": rec.get("fault"),
+            "nfiles": len(rec.get("files", [])), "verdict": rec.get("verdict")}
+
+
+def check_C19(tier):
+    res = Result("C19", tier, "model_checking")
+    res.rule = ("E1 (RunCsv.tla): file sets of <= 3 (thorough 4) files from a universe with wraps inside files, "
+                "undecodable events first/middle/last, non-main events, an empty file, a foreign run, a duplicate initial "
+                "timestamp and an unknown extension x every argument permutation x 1..2 (3) workers claiming/finishing "
+                "events in every interleaving: refused iff required, rows meet the requirement and are a function of the "
+                "file set. E2/E3: seeded runs of 1..4 real .mid/.mid.lz4 files with 0..10 (60) events (main, chronobox, "
+                "sequencer, other ids; TRG timestamps wrapping 2^32 repeatedly; malformed / doubled / missing TRG banks, "
+                "unknown extra banks) through both real binaries for several argument orders and RAYON_NUM_THREADS in "
+                "{1,5} ({1,2,5,16}); Trace_RunCsv recomputes refusal, row order/serials, per-program decodability "
+                "(scalers: TrgV3 on the bank bytes), tick differences on 16-bit limbs, scaler columns from the TRG "
+                "bytes, vertex columns against the library, and byte-identity across runs. distinct_nontrivial = "
+                "scenarios with >= 2 files, a wrap between decodable events and an undecodable event, or refused ones")
+    res.assumptions = ["RunCsv.tla / TrgV3.tla are the reference semantics", "MIDAS writer of the harness",
+                       "vertex columns are compared with the library called by the harness on the same banks",
+                       "the absolute offset of trg_time is not asserted, only differences (DESIGN 3.6)"]
+    mf, mw = (3, 2) if tier == "quick" else (4, 3)
+    cfg = write_cfg("MC_RunCsv_" + tier, invariants=["RefusedIffRequired", "NeverWritesWhenRefused", "RowsCorrect",
+                                                       "RowsDeterministic"],
+                    extra="CONSTANTS\n M = 4\n MaxFiles = %d\n MaxWorkers = %d\n FileUniverse <- UniverseDef" % (mf, mw))
+    r = tlc_model_check("MC_RunCsv", cfg, "mc_runcsv_" + tier,
+                        expect_actions=["Refuse", "Sort", "Open", "Claim", "Finish", "Collect", "Write"], workers=8,
+                        timeout=3000)
+    res.add_mc(r)
+    bins = build_bins()
+    n = 40 if tier == "quick" else 600
+    trace = os.path.join(BUILD, "traces", "C19_trace.ndjson")
+    work = os.path.join(BUILD, "work_C19")
+    res.evaluations += run_vh(["csvrun", "--bindir", bins, "--work", work, "--n", str(n), "--seed", str(seed()),
+                               "--tier", tier], trace, timeout=7200)
+    shutil.rmtree(work, ignore_errors=True)
+    for k, part in enumerate(split_file(trace, 300)):
+        validate_dec_trace(res, part, "C19_%d" % k, module="Trace_RunCsv", descriptor=csvrun_descriptor)
+    nt = 0
+    nruns = 0
+    with open(trace) as f:
+        for line in f:
+            rec = json.loads(line)
+            nruns += len(rec.get("runs", []))
+            rows = rec["runs"][0]["rows"] if rec.get("runs") else []
+            if rec.get("fault") != "none" or (len(rec["files"]) >= 2 and any(x[1] == 0 for x in rows) and sum(x[1] for x in rows) >= 2):
+                nt += 1
+            if len(res.samples) < 2 and 2 <= len(rows) <= 6:
+                res.add_sample(slim(rec, 12), 2)
+    res.distinct = nt
+    res.extra["binary_runs"] = nruns
+    if tier == "thorough":
+        for line in open(trace):
+            rec = json.loads(line)
+            if rec.get("runs") and len(rec["runs"][0]["rows"]) >= 2:
+                break
+        rec["runs"][0]["rows"] = list(reversed(rec["runs"][0]["rows"]))
+        p2 = trace + ".selftest"
+        open(p2, "w").write(json.dumps(rec) + "\n")
+        _, mism, _ = tlc_validate("Trace_RunCsv", p2, "C19_self")
+        okk = any(m[0] == rec["i"] for m in mism)
+        res.extra["binding_selftest"] = {"corrupted_record": rec["i"], "rejected": okk, "how": "reversed the CSV rows of one run"}
+        if not okk:
+            raise ToolError("binding self-test failed")
+    return res.finish()
